@@ -121,11 +121,13 @@ def profiles_for(pid, tier):
                 ("crash-quiesce", dict(base, w_crash=4, w_sweep=4, quiesce=True, w_fault=2, usage=True), N(100, 800))],
         "C14": [("dup", dict(three, w_reconnect=6, w_sweep=2), N(120, 1000))],
         "C15": [("usage", dict(three, usage=True, w_close=12, w_release=10, w_sweep=5, w_bigjump=3), N(200, 2000))],
-        "C16": [("blur", dict(three, usage=True, blur="rand", w_close=12, w_release=10, w_sweep=5, w_bigjump=3), N(200, 2000))],
+        "C16": [("blur", dict(three, usage=True, blur="rand", w_close=12, w_release=10, w_sweep=5, w_bigjump=3), N(200, 2000)),
+                ("binds", dict(base, usage=True, blur="rand", w_connect=20, w_reconnect=10, p_badcv=0.3, w_restart=2, w_sweep=3,
+                               w_bigjump=3), N(80, 600))],
         "C17": [("malformed", dict(three, w_malformed=14), N(200, 2000)),
                 ("odd-strings", dict(base, apps=["a", "", "ü"], sides=["s1", "", "s\u0000x"], names=["1", "", "ñ"],
                                      client_mailboxes=["m1", ""], w_malformed=8), N(80, 600)),
-                ("general", dict(three, w_malformed=4, welcome=True), N(80, 600))],
+                ("general", dict(three, w_malformed=4, welcome=True, p_badcv=0.1), N(80, 600))],
         "C18": [("configs", dict(three, w_list=8, w_allocate=8), N(100, 800))],
     }
     return P.get(pid, [])
